@@ -306,3 +306,47 @@ package sam
 //@   ensures[C07] @invB refsB(bh)
 //@   ensures[C07] @invC refsC(bh)
 //@   ensures[C07] @len len(bh.refs) == old(len(bh.refs)) || (result == nil && len(bh.refs) == old(len(bh.refs)) + 1 && bh.refs[old(len(bh.refs))] == r)
+
+// Renaming an item that belongs to a header keeps the invariant: the name
+// table follows the new name, and a name in use by another item is refused.
+//@ trusted func ext:errors.New
+//@   ensures result != nil
+
+//@ func Reference.SetName
+//@   mode int
+//@   props C07
+//@   terminates
+//@   requires r != nil && (r.owner != nil ==> (len(r.owner.refs) <= 1000000 && refsA(r.owner) && refsB(r.owner) && refsC(r.owner) &&
+//@       0 <= r.id && int(r.id) < len(r.owner.refs) && r.owner.refs[int(r.id)] == r))
+//@   modifies r.name, mapof(r.owner.seenRefs)
+//@   ensures[C07] @invA r.owner != nil ==> refsA(r.owner)
+//@   ensures[C07] @invB r.owner != nil ==> refsB(r.owner)
+//@   ensures[C07] @invC r.owner != nil ==> refsC(r.owner)
+//@   ensures[C07] @renamed result == nil ==> r.name == n
+//@   ensures[C07] @refused result != nil ==> r.name == old(r.name)
+
+//@ func ReadGroup.SetName
+//@   mode int
+//@   props C07
+//@   terminates
+//@   requires r != nil && (r.owner != nil ==> (len(r.owner.rgs) <= 1000000 && rgsA(r.owner) && rgsB(r.owner) && rgsC(r.owner) &&
+//@       0 <= r.id && int(r.id) < len(r.owner.rgs) && r.owner.rgs[int(r.id)] == r))
+//@   modifies r.name, mapof(r.owner.seenGroups)
+//@   ensures[C07] @invA r.owner != nil ==> rgsA(r.owner)
+//@   ensures[C07] @invB r.owner != nil ==> rgsB(r.owner)
+//@   ensures[C07] @invC r.owner != nil ==> rgsC(r.owner)
+//@   ensures[C07] @renamed result == nil ==> r.name == n
+//@   ensures[C07] @refused result != nil ==> r.name == old(r.name)
+
+//@ func Program.SetUID
+//@   mode int
+//@   props C07
+//@   terminates
+//@   requires r != nil && (r.owner != nil ==> (len(r.owner.progs) <= 1000000 && progsA(r.owner) && progsB(r.owner) && progsC(r.owner) &&
+//@       0 <= r.id && int(r.id) < len(r.owner.progs) && r.owner.progs[int(r.id)] == r))
+//@   modifies r.uid, mapof(r.owner.seenProgs)
+//@   ensures[C07] @invA r.owner != nil ==> progsA(r.owner)
+//@   ensures[C07] @invB r.owner != nil ==> progsB(r.owner)
+//@   ensures[C07] @invC r.owner != nil ==> progsC(r.owner)
+//@   ensures[C07] @renamed result == nil ==> r.uid == uid
+//@   ensures[C07] @refused result != nil ==> r.uid == old(r.uid)
